@@ -30,6 +30,8 @@ def run(prog, chk, tier):
     m = bf3.model(prog)
     if m.rb is not None:
         bf3.tag_compare_rules(m, chk, "C02")
+    # the BEC2 image goes through the same text envelope as a BF3 image: its hex lines must cover all of it
+    bf3.envelope_writer_rules(m, chk, "C02")
     from rules import c08
 
     c08.frame_builder_rules(prog, chk, "C02")
